@@ -404,7 +404,7 @@ func init() {
 					}
 					conversionCase(c, i)
 				}})
-			secs = append(secs, core.Section{Name: "conversion-special", Exhaustive: true, N: len(mutTemplates) + 6 + 5,
+			secs = append(secs, core.Section{Name: "conversion-special", Exhaustive: true, N: len(mutTemplates) + 6 + len(argFaultCases) + len(zeroLiterals) + 5,
 				Run: func(c *core.Ctx, i int) {
 					registerConversionFuncs()
 					registerMutators()
@@ -455,6 +455,17 @@ func registerMutators() {
 		return a[:0]
 	})
 }
+
+var argFaultCases = []string{
+	`{{ "a".rec(1, 2.nosuchfn()) }}`, `{{ "a".rec(2.nosuchfn(), 1) }}`, `{{ "a".rec(1, 2, 3.nosuchfn()) }}`, `{{ "a".rec([1, 2.nosuchfn()]) }}`, `{{ "a".rec({k: 2.nosuchfn()}) }}`,
+	`{{ [1, 2].rec("x", 2.nosuchfn()) }}`, `{{ [1, 2.nosuchfn()].rec() }}`, `{{ 7.rec(v, 2.nosuchfn()) }}`, `{{ true.rec(nil, 1.5, 2.nosuchfn()) }}`, `{{ 2.5.rec("s", [v, 2.nosuchfn()]) }}`,
+	`@each(k in [1, 2]){{ v.rec(k, 2.nosuchfn()) }}@end`,
+}
+
+var zeroLiterals = []struct {
+	lit string
+	val int64
+}{{"010", 10}, {"0100", 100}, {"012", 12}, {"08", 8}, {"09", 9}, {"007", 7}, {"00", 0}, {"0030", 30}, {"0777", 777}, {"0000000019", 19}}
 
 var mutTemplates = []struct {
 	src   string
@@ -539,10 +550,49 @@ func specialConversionCase(c *core.Ctx, i int) {
 				c.Violation("conversion:empty-array-result", fmt.Sprintf("%s gave %s, want %q", s2, g2.Describe(), w2), map[string]any{"source": s2})
 			}
 		}
+	case i < len(mutTemplates)+6+len(argFaultCases):
+		// a failing argument, wherever it stands in the list, fails the call: the function does not run
+		src := argFaultCases[i-len(mutTemplates)-6]
+		desc := map[string]any{"source": src}
+		c.Input(desc)
+		cfLog = cfLog[:0]
+		got := evalString(c, src, map[string]any{"v": "data"})
+		c.Nontrivial(src)
+		if got.Panicked {
+			return
+		}
+		if got.Err == nil {
+			c.Violation("conversion:failing-argument-accepted", fmt.Sprintf("%s rendered %q although an argument fails", src, got.Out), desc)
+		} else if !strings.Contains(got.Err.Error(), "nosuchfn") || !strings.Contains(got.Err.Error(), "INTEGER") {
+			c.Violation("conversion:unregistered-call-message", "the error does not name the unregistered function and its receiver type: "+got.Err.Error(), desc)
+		}
+		if len(cfLog) != 0 {
+			c.Violation("conversion:function-ran-with-failing-argument", fmt.Sprintf("the function ran with %#v", cfLog[0].args), desc)
+		}
+	case i < len(mutTemplates)+6+len(argFaultCases)+len(zeroLiterals):
+		// integer literals with leading zeros are decimal, as receivers and as arguments
+		zl := zeroLiterals[i-len(mutTemplates)-6-len(argFaultCases)]
+		src := "{{ " + zl.lit + ".rec(" + zl.lit + ", [" + zl.lit + "]) }}|{{ n = " + zl.lit + " }}{{ n.rec() }}"
+		desc := map[string]any{"source": src}
+		c.Input(desc)
+		cfLog = cfLog[:0]
+		got := evalString(c, src, nil)
+		c.Nontrivial(src)
+		if got.Panicked {
+			return
+		}
+		want := fmt.Sprintf("%d|%d", zl.val, zl.val)
+		if got.Err != nil || got.Out != want || len(cfLog) != 2 {
+			c.Violation("conversion:leading-zero-literal", fmt.Sprintf("%s gave %s (function ran %d times), want %q", src, got.Describe(), len(cfLog), want), desc)
+			return
+		}
+		if !sameNative(cfLog[0].recv, int(zl.val)) || len(cfLog[0].args) != 2 || !sameNative(cfLog[0].args[0], zl.val) || !sameNative(cfLog[0].args[1], []any{zl.val}) || !sameNative(cfLog[1].recv, int(zl.val)) {
+			c.Violation("conversion:leading-zero-literal", fmt.Sprintf("the literal %s arrived as receiver %#v with arguments %#v", zl.lit, cfLog[0].recv, cfLog[0].args), desc)
+		}
 	default:
 		// every entry point sees the registered functions
 		recvs := []string{`"s"`, "[1, 2]", "7", "2.5", "true"}
-		rs := recvs[(i-len(mutTemplates)-6)%len(recvs)]
+		rs := recvs[(i-len(mutTemplates)-6-len(argFaultCases)-len(zeroLiterals))%len(recvs)]
 		src := "<{{ " + rs + ".rec(1, \"a\") }}>{{ v.rec() }}"
 		data := map[string]any{"v": "from data"}
 		want := evalString(c, src, data)
